@@ -303,6 +303,20 @@ def run(res):
             for line in o.splitlines():
                 f = line.split("\t")
                 out[f[0]] = f[1:]
+        # wall-clock observations (not back within the bound, late, goroutines not settled) depend on the load of the
+        # machine: those cases are run again, one at a time, and the second observation is the one that is judged
+        by_id = {json.loads(l)["id"]: l for l in ilines}
+        slow = [cid for cid, f in out.items() if not f[0].startswith("SKIPPED") and len(f) == 10
+                and (f[0] != "true" or int(f[1]) > 2000000 or f[9] != "true")]
+        for cid in slow[:100]:
+            rc2, o2, e2 = run_lines(obs, [by_id[cid]], env=env)
+            for line in o2.splitlines():
+                f2 = line.split("\t")
+                if f2[0] == cid:
+                    out[cid] = f2[1:]
+        if slow:
+            cov.setdefault("rerun_after_slow_observation", 0)
+            cov["rerun_after_slow_observation"] += len(slow)
         impl_runs.append((gmp or "default", out))
 
     evals = 0
